@@ -1177,7 +1177,11 @@ class Var(ArrayReduction):
             result = moment_agg(vals, sum=np.nansum, ddof=ddof, axis=(0,))
         else:
             result = moment_agg(vals, ddof=ddof, axis=(0,))
-        return result
+        # pandas: NaN unless there are more than ``ddof`` valid values (n - ddof
+        # == 0 gives inf in the array reduction, which follows numpy)
+        n = sum(v["n"] for v in (vals if isinstance(vals, list) else [vals]))
+        result = np.where(np.reshape(n, np.shape(result)) > ddof, result, np.nan)
+        return result[()] if result.ndim == 0 else result
 
 
 class Moment(ArrayReduction):
